@@ -8,6 +8,7 @@ import (
 	"encoding/json"
 	"fmt"
 	"os"
+	"path/filepath"
 	"sort"
 	"strings"
 	"time"
@@ -122,6 +123,16 @@ func star() intoto.CertificateConstraint {
 type world struct {
 	root, root2, froot, frootSame *gen.Cert
 	nb, na                        time.Time
+}
+
+// trustStore puts the catalogue's root (and nothing else) into the process's system trust store, before the
+// first chain is verified: a verifier that falls back to the machine's roots when the layout names none,
+// or not the right one, then accepts what only a layout root may authorise.
+func trustStore(c *mcx.Ctx, w *world) {
+	f := filepath.Join(c.Work, "system-roots.pem")
+	os.WriteFile(f, w.root.PEM, 0o644)
+	os.Setenv("SSL_CERT_FILE", f)
+	os.Setenv("SSL_CERT_DIR", filepath.Join(c.Work, "no-such-cert-dir"))
 }
 
 func newWorld() *world {
@@ -504,6 +515,7 @@ func judge(c *mcx.Ctx, sc *scenario, level string) (obs, sig, class string) {
 func run(c *mcx.Ctx) {
 	defer silence()()
 	w := newWorld()
+	trustStore(c, w)
 	var n int64
 	enumerate(w, c.Thorough(), func(kind string, sc scenario, levels []string) {
 		for _, level := range levels {
@@ -542,6 +554,7 @@ func replay(c *mcx.Ctx, raw json.RawMessage) (string, string) {
 		return "bad case: " + err.Error(), ""
 	}
 	w := newWorld()
+	trustStore(c, w)
 	var obs, sig string
 	found := false
 	enumerate(w, cs.Kind == "pair", func(kind string, sc scenario, levels []string) {
